@@ -470,6 +470,11 @@ func memRun(seed int64, kind string, calls []string, fill byte) []memStep {
 		for _, c := range calls {
 			n := len(steps)
 			ctx := a.arg("arg.context", fmt.Sprintf("ctx%d", n), []byte("context string"), spare)
+			if n%3 == 1 {
+				ctx = ctx[:0]
+			} else if n%3 == 2 {
+				ctx = nil
+			}
 			m := a.arg("arg.message", fmt.Sprintf("msg%d", n), msg, spare)
 			switch c {
 			case "Blind", "Unblind":
@@ -518,6 +523,12 @@ func memRun(seed int64, kind string, calls []string, fill byte) []memStep {
 			n := len(steps)
 			blind := a.arg("arg.blind", fmt.Sprintf("blind%d", n), hashBytes(seed, "mem-ed-blind", 32), spare+32)
 			ctx := a.arg("arg.context", fmt.Sprintf("ctx%d", n), []byte("context string"), spare)
+			switch n % 3 { // also the empty and the nil context
+			case 1:
+				ctx = ctx[:0]
+			case 2:
+				ctx = nil
+			}
 			m := a.arg("arg.message", fmt.Sprintf("msg%d", n), msg, spare)
 			pk := a.arg("arg.key", fmt.Sprintf("pub%d", n), cur, spare)
 			sk := a.arg("arg.key", fmt.Sprintf("priv%d", n), priv, spare)
